@@ -93,16 +93,16 @@ try: old=open(ID+"/overlay.json").read()
 except Exception: old=""
 if new!=old: open(ID+"/overlay.json","w").write(new)
 PY
-  if [ "$REPO" = "/repo" ]; then
+  if [ "$REPO" = "/repo" ] && [ "$V" = "/verif" ]; then
     cp -f /repo/go.sum "$V/sim/go.sum"
   else
     # a module directory of its own whose go.mod points at the other checkout
     mkdir -p "$B/mods/$KEY"
     rsync -a --delete --exclude go.mod --exclude go.sum "$SRC/" "$B/mods/$KEY/"
-    sed "s|=> /repo\$|=> $REPO|" "$SRC/go.mod" > "$B/mods/$KEY/go.mod"
+    sed "s|=> /repo\$|=> $REPO|; s|=> /verif/.build/geth\$|=> $B/geth|" "$SRC/go.mod" > "$B/mods/$KEY/go.mod"
     cp -f "$REPO/go.sum" "$B/mods/$KEY/go.sum"
   fi
 ) 9>"$B/build.lock"
-if [ "$REPO" != "/repo" ]; then MOD="$B/mods/$KEY"; fi
+if [ "$REPO" != "/repo" ] || [ "$V" != "/verif" ]; then MOD="$B/mods/$KEY"; fi
 cd "$MOD"
 $GO test -c -tags "$TAGS" -overlay "$ID/overlay.json" -o "$OUT" . >&2
